@@ -600,6 +600,18 @@ def main(ck):
             ts = sorted(set(o["vm"] for o in c["ops"] if o["op"] in ("add", "goc", "goi", "pkg", "cexists", "iexists", "new", "newshort", "callfn", "newchild", "callcall") and o["vm"] >= 0))
             cases.append((c, rng.choice(ts) if ts else None))
 
+    # WHERE the files of a history live (the files of routes parsefile / include / require_once and the class-path
+    # directory of namespace App) is not part of the property: half of the histories get a path shape (seeded change
+    # C12-15: files whose path contains /vendor/ handed to the base VM)
+    SHAPES = ["vendor", "vendor/acme/lib/src", "app/vendor/x", "src", "My.Dir/UPPER", "lib/v1.2/inc", "dots:vendor", "dots:src"]
+    if not ck.replay:
+        for c, _ in cases:
+            if "hot" not in c and rng.random() < 0.5:
+                c["pathshape"] = rng.choice(SHAPES)
+    shapes_used = {}
+    for c, _ in cases:
+        shapes_used[c.get("pathshape", "")] = shapes_used.get(c.get("pathshape", ""), 0) + 1
+    ck.cov["path_shape_distribution"] = shapes_used
     # run every history, and for the chosen t the purged history, on the implementation
     jobs = []
     for c, t in cases:
